@@ -37,6 +37,10 @@ CHECKS = {
          "Machine-checked proof: lookup_nodup, code_roundtrip, code_injective, code_sound, id_of_row, rows_ids_injective, refs_denormalize, attr_denormalize, absent_stays_absent, shape. Tie: generated document sets (ids occurring only as attribute targets / reference types, dangling ids) and synthetic frame pairs; the real lookup table, ids and denormalised columns vs the model and vs the bijection predicates evaluated directly.",
          "Trusted: Lean kernel, list model of pandas factorize/get_indexer, driver, harness.",
          "DESIGN.md section 3 C04"),
+ "C08": ("Lean 4 theorems about a hand model of every xml_encode (text level) and of parse_value and its helpers (tree level), chained through a proved XML reader (XmlLite) + differential correspondence against /repo",
+         "Machine-checked proof: encodeText_render (the concatenated text is the rendering of a layout tree), text_is_tree (a conforming reader recovers exactly the intended element tree from it, via parseXml_render), tree_roundtrip (parse_value maps that tree back to the value: integers exactly for all widths, tokens, text up to outer white space, DateTime fields via parseDT_print, EUInformation / Range structures, nested lists), decode_encode (end to end), int_text_roundtrip; negative witnesses for the recorded findings (null Boolean, Guid, NodeId, year < 1000). Tie: ~5 000 values per quick run: emitted text compared with the model's string, decode(encode v) evaluated on the real code with lxml, decoded value compared with the model's decodeT on the same infoset, XmlLite compared with lxml on the emitted fragments, CPython codec laws sampled.",
+         "Trusted: Lean kernel, CPython float/str, base64, strftime(glibc), dateutil on the printed format (tokens are opaque in the model), lxml, driver, harness. Extension objects / raw XML are compared as trees. Recorded findings D-C08b,c,e,f,g,h,j.",
+         "DESIGN.md section 3 C08"),
 }
 PENDING_REASON = "check not built yet in this session; planned as a Lean model + correspondence check (DESIGN.md section 3)"
 
